@@ -155,10 +155,13 @@ def shared (s : State) : Map Rec × Tid × List (Tid × List Oid) := (s.committe
   repeat' split
   all_goals simp
 
+@[simp] theorem dropStack_shared (s : State) (st) : shared (dropStack s st) = shared s :=
+  foldl_frame shared disownPending (fun _ _ => rfl) st s
+
 @[simp] theorem storeObjects_shared (fuel : Nat) (s : State) (st) :
     shared (storeObjects fuel s st).1 = shared s := by
   induction fuel generalizing s st with
-  | zero => cases st <;> rfl
+  | zero => cases st <;> simp [storeObjects]
   | succ n ih =>
     cases st with
     | nil => rfl
@@ -166,7 +169,7 @@ def shared (s : State) : Map Rec × Tid × List (Tid × List Oid) := (s.committe
       simp only [storeObjects]
       split
       · rw [ih]; simp
-      · exact storeOne_shared s i
+      · simp
 
 @[simp] theorem commitLoop_shared (fuel : Nat) (s : State) (l) :
     shared (commitLoop fuel s l).1 = shared s := by
